@@ -9,6 +9,7 @@ import (
 	"encoding/json"
 	"fmt"
 	"os"
+	"runtime"
 	"runtime/debug"
 	"sort"
 	"sync"
@@ -21,7 +22,7 @@ import (
 )
 
 type actorSpec struct {
-	K  string  `json:"k"` // W R F M C
+	K  string  `json:"k"` // W R F M C, B = the shard's own background snapshot goroutine (write-cold trigger)
 	Bs []int64 `json:"bs,omitempty"`
 	N  int     `json:"n,omitempty"`
 }
@@ -34,13 +35,14 @@ type schedCase struct {
 }
 
 type schedOut struct {
-	Kind    string               `json:"kind"`
-	ID      int                  `json:"id"`
-	Tag     string               `json:"tag,omitempty"`
-	Results map[string][][]int64 `json:"results"` // reader actor index -> result sets of its queries, in order
-	Trace   []string             `json:"trace"`
-	Err     string               `json:"err,omitempty"`
-	Stuck   bool                 `json:"stuck,omitempty"`
+	Kind      string               `json:"kind"`
+	ID        int                  `json:"id"`
+	Tag       string               `json:"tag,omitempty"`
+	Results   map[string][][]int64 `json:"results"` // reader actor index -> result sets of its queries, in order
+	Trace     []string             `json:"trace"`
+	Err       string               `json:"err,omitempty"`
+	Stuck     bool                 `json:"stuck,omitempty"`
+	ProbeFail string               `json:"probe_fail,omitempty"` // a step the model says is disabled went ahead in the implementation
 }
 
 type event struct {
@@ -52,25 +54,55 @@ type sactor struct {
 	idx     int
 	step    int // model steps of this actor executed so far
 	running bool
+	started bool   // started early by a negative probe (was blocked then)
 	at      string // park point the goroutine is waiting at ("" if none)
 	targets map[string]bool
 	ev      chan event
 	resume  chan struct{}
 	results [][]int64
 	err     error
+	nUnord  int // out-of-order files when the merge started
 }
 
 type controller struct {
-	mu  sync.Mutex
-	cur *sactor
-	out *schedOut
+	mu    sync.Mutex
+	cur   *sactor
+	byGID map[uint64]*sactor // goroutines started by the harness for an actor
+	out   *schedOut
 }
 
 var ctl controller
 
+// curGID parses "goroutine N [" from the current goroutine's stack header
+func curGID() uint64 {
+	var b [64]byte
+	n := runtime.Stack(b[:], false)
+	var id uint64
+	for _, c := range b[len("goroutine "):n] {
+		if c < '0' || c > '9' {
+			break
+		}
+		id = id*10 + uint64(c-'0')
+	}
+	return id
+}
+
+func (c *controller) register(a *sactor) {
+	id := curGID()
+	c.mu.Lock()
+	c.byGID[id] = a
+	c.mu.Unlock()
+}
+
+// a point reached in a goroutine the harness started belongs to that actor; points reached in engine goroutines
+// (flush workers, merge, the background snapshot loop) belong to the actor that is being advanced
 func hookHandler(point string) {
+	gid := curGID()
 	ctl.mu.Lock()
-	a := ctl.cur
+	a := ctl.byGID[gid]
+	if a == nil {
+		a = ctl.cur
+	}
 	park := a != nil && a.targets[point]
 	ctl.mu.Unlock()
 	if !park {
@@ -95,10 +127,11 @@ func (c *controller) advance(a *sactor, targets []string, start func(), quiet ti
 	if a.at != "" {
 		a.at = ""
 		a.resume <- struct{}{}
-	} else if start != nil {
+	} else if start != nil && !a.started {
 		a.running = true
 		go start()
 	}
+	a.started = false
 	to := stepTimeout
 	if quiet > 0 {
 		to = quiet
@@ -135,7 +168,13 @@ func runCase(cs schedCase) (out schedOut) {
 			out.Err = fmt.Sprintf("PANIC in harness/engine: %v\n%s", e, debug.Stack())
 		}
 	}()
-	sh, err := openShard(fmt.Sprintf("c04-sched-%d", cs.ID))
+	cold := time.Hour
+	for _, sp := range cs.Actors {
+		if sp.K == "B" {
+			cold = time.Second // the background snapshot fires after ~1-2 s without writes
+		}
+	}
+	sh, err := openShardCold(fmt.Sprintf("c04-sched-%d", cs.ID), cold)
 	if err != nil {
 		out.Err = "open shard: " + err.Error()
 		return
@@ -154,12 +193,51 @@ func runCase(cs schedCase) (out schedOut) {
 	}
 	ctl.mu.Lock()
 	ctl.cur = nil
+	ctl.byGID = map[uint64]*sactor{}
 	ctl.mu.Unlock()
 	verifhook.SetHandler(hookHandler)
 	defer verifhook.SetHandler(nil)
 	trace := func(a *sactor, what string) { out.Trace = append(out.Trace, fmt.Sprintf("%d:%s", a.idx, what)) }
 
+	flushBody := func(a *sactor) func() {
+		return func() {
+			ctl.register(a)
+			defer func() {
+				if e := recover(); e != nil {
+					a.err = fmt.Errorf("PANIC in flush: %v\n%s", e, debug.Stack())
+				}
+				a.ev <- event{""}
+			}()
+			sh.ForceFlush()
+		}
+	}
 	for pos, ai := range cs.Sched {
+		if ai < 0 && -ai-1 < len(actors) && actors[-ai-1].spec.K == "F" {
+			// negative probe: the model says the next flush of this actor cannot start here (a snapshot is in flight);
+			// the implementation must block as well
+			a := actors[-ai-1]
+			ctl.mu.Lock()
+			a.targets = map[string]bool{"writeSnapshot.afterSwap": true}
+			ctl.mu.Unlock()
+			a.running = true
+			a.started = true
+			go flushBody(a)()
+			select {
+			case e := <-a.ev:
+				a.at = e.point
+				a.started = false
+				if e.point == "" {
+					a.running = false
+				}
+				if out.ProbeFail == "" {
+					out.ProbeFail = fmt.Sprintf("schedule position %d: ForceFlush of actor %d went ahead (reached %q) although a snapshot was in flight; the model says this step is disabled", pos, a.idx, e.point)
+				}
+				trace(a, "probe-NOT-blocked@"+e.point)
+			case <-time.After(300 * time.Millisecond):
+				trace(a, "probe-blocked")
+			}
+			continue
+		}
 		if ai < 0 || ai >= len(actors) {
 			out.Err = fmt.Sprintf("bad actor index %d", ai)
 			break
@@ -184,6 +262,7 @@ func runCase(cs schedCase) (out schedOut) {
 			switch st % 5 {
 			case 0:
 				at, ok = ctl.advance(a, []string{"cloneReaders.afterSnapshotPtr"}, func() {
+					ctl.register(a)
 					res := runQuery(sh, 1, (1<<20)-1, true)
 					if res.err != nil {
 						a.err = res.err
@@ -206,10 +285,11 @@ func runCase(cs schedCase) (out schedOut) {
 		case "F":
 			switch st % 4 {
 			case 0:
-				at, ok = ctl.advance(a, []string{"writeSnapshot.afterSwap"}, func() {
-					sh.ForceFlush()
-					a.ev <- event{""}
-				}, 0)
+				if a.at == "writeSnapshot.afterSwap" { // already there (a failed negative probe let it through)
+					at = a.at
+				} else {
+					at, ok = ctl.advance(a, []string{"writeSnapshot.afterSwap"}, flushBody(a), 0)
+				}
 			case 1:
 				if a.running {
 					at, ok = ctl.advance(a, []string{"AddBothTSSPFiles.beforeLock", "writeSnapshot.beforeDrop"}, nil, 0)
@@ -224,19 +304,52 @@ func runCase(cs schedCase) (out schedOut) {
 				}
 			}
 			trace(a, "flush@"+at)
+			if a.err != nil && out.Err == "" {
+				out.Err = a.err.Error()
+			}
+		case "B":
+			// the shard's own Snapshot goroutine: it starts when the shard has been idle for the cold duration
+			switch st % 4 {
+			case 0:
+				a.running = true
+				at, ok = ctl.advance(a, []string{"writeSnapshot.afterSwap"}, func() {}, 4*time.Second)
+				if at == "" {
+					ok = false // the background snapshot did not start
+				}
+			case 1:
+				at, ok = ctl.advance(a, []string{"AddBothTSSPFiles.beforeLock", "writeSnapshot.beforeDrop"}, nil, 0)
+			case 2:
+				if a.at != "writeSnapshot.beforeDrop" {
+					at, ok = ctl.advance(a, []string{"writeSnapshot.beforeDrop"}, nil, 0)
+				}
+			case 3:
+				at, ok = ctl.advance(a, nil, nil, 150*time.Millisecond)
+			}
+			trace(a, "bgsnapshot@"+at)
 		case "M":
+			ts := sh.TableStore()
 			switch st {
 			case 0:
-				at, ok = ctl.advance(a, []string{"ReplaceFiles.beforeLock"}, func() {
-					_ = sh.TableStore().MergeOutOfOrder(sh.ID(), false, true)
-				}, 450*time.Millisecond)
+				a.nUnord = ts.GetTableFileNum(mst, false)
+				if a.nUnord == 0 || ts.GetTableFileNum(mst, true) == 0 {
+					// nothing to merge: the call returns without touching the lists (the model skips the operation)
+					_ = ts.MergeOutOfOrder(sh.ID(), false, true)
+				} else {
+					at, ok = ctl.advance(a, []string{"ReplaceFiles.beforeLock"}, func() {
+						_ = ts.MergeOutOfOrder(sh.ID(), false, true)
+					}, 1500*time.Millisecond)
+				}
 			case 1:
 				if a.running {
-					at, ok = ctl.advance(a, []string{"deleteUnorderedFiles.beforeMapDelete"}, nil, 450*time.Millisecond)
+					q := 1500 * time.Millisecond
+					if ts.GetTableFileNum(mst, false) > a.nUnord {
+						q = 60 * time.Millisecond // a flush added an out-of-order file: the list will not become empty, no park
+					}
+					at, ok = ctl.advance(a, []string{"deleteUnorderedFiles.beforeMapDelete"}, nil, q)
 				}
 			case 2:
 				if a.running {
-					at, ok = ctl.advance(a, nil, nil, 200*time.Millisecond)
+					at, ok = ctl.advance(a, nil, nil, 20*time.Millisecond)
 				}
 			}
 			if !a.running && st <= 2 {
@@ -347,6 +460,7 @@ func runSched(args []string) {
 		if err := json.Unmarshal(sc.Bytes(), &cs); err != nil {
 			continue
 		}
+		gen.Emit(map[string]any{"kind": "start", "id": cs.ID})
 		out := runCase(cs)
 		gen.Emit(out)
 		n++
